@@ -1086,7 +1086,9 @@ func judge(c *StepCase, r0, r1 *RunResult) *Violation {
 		if p.irq.Kind != "noop" {
 			allNoop = false
 		}
-		if !p.delivered && p.irq.Pre && p.sent && r1.Steps >= 2 {
+		// (one function is taken per poll; a run that an earlier interrupt function
+		// ended by panicking legitimately leaves the rest of the queue untouched)
+		if !p.delivered && p.irq.Pre && p.sent && !r.halted && !r1.Panicked && r1.Steps >= 2+len(r.pend) {
 			return viol("C18", "irq_not_delivered", "a function queued on the channel before the script was started was never invoked although the script executed %d evaluation steps", r1.Steps)
 		}
 		if !p.delivered {
